@@ -8,8 +8,8 @@ simplifier.check_results), over abstract function strings.
 * `propagate`                 — do_sympy step (3): every function takes the rewritten string of its unique and appends
                                  that unique's new substitutions to its own chain
 * `shuffleRemap`              — duplicate_checker.main: uniques permuted by `i`, matches remapped by the inverse
-* `unmerge`                   — check_results: functions whose map cannot be verified become their own unique with an
-                                 empty chain
+* `unmergeMatch`              — check_results: a function whose map cannot be verified becomes (a variant of) a new
+                                 unique appended after the old ones, with an empty chain
 -/
 namespace ESR.Library
 
@@ -31,24 +31,18 @@ inductive Entry (μ : Type) where
   | map (m : μ)
   | nan
 
-/-- do_sympy step (3) for one function with unique index `m`:
-new string = rewritten unique; chain extended by the unique's additional substitutions. -/
+/-- do_sympy step (3): new string = rewritten unique of the function's match; chain extended by that unique's
+additional substitutions. -/
 def propagate {μ} (uniq' : List σ) (add : List (List (Entry μ))) (dflt : σ)
-    (fs : List σ) (ms : List Nat) (chains : List (List (Entry μ))) : List σ × List (List (Entry μ)) :=
-  ((ms.map fun m => uniq'.getD m dflt),
-   (List.zipWith (fun c m => c ++ add.getD m []) chains ms))
+    (ms : List Nat) (chains : List (List (Entry μ))) : List σ × List (List (Entry μ)) :=
+  (ms.map (fun m => uniq'.getD m dflt), List.zipWith (fun c m => c ++ add.getD m []) chains ms)
 
-/-- shuffle uniques by `perm` (new position j holds old unique perm[j]) and remap matches by the inverse -/
+/-- shuffle uniques by `perm` (new position j holds old unique perm[j]); matches remapped by the inverse -/
 def shuffleRemap (perm : List Nat) (uniq : List σ) (ms : List Nat) (dflt : σ) : List σ × List Nat :=
   (perm.map (fun p => uniq.getD p dflt), ms.map (fun m => perm.findIdx (· = m)))
 
-/-- check_results un-merge: the functions at the positions `bad` get new uniques appended after the old ones -/
-def unmerge {μ} (uniq : List σ) (fs : List σ) (ms : List Nat) (chains : List (List (Entry μ))) (bad : List Nat) :
-    List σ × List Nat × List (List (Entry μ)) :=
-  let newFuns := bad.map (fun i => fs.getD i (fs.headD (uniq.headD (fs.head?.getD (uniq.head?.getD (match fs with | x :: _ => x | [] => match uniq with | u :: _ => u | [] => (fs ++ uniq).head!))))))
-  let newUniq := uniqueKeys newFuns
-  (uniq ++ newUniq,
-   (List.range ms.length).map (fun i => if i ∈ bad then uniq.length + firstIndex newUniq (fs.getD i (fs.head!)) else ms.getD i 0),
-   (List.range chains.length).map (fun i => if i ∈ bad then [] else chains.getD i []))
+/-- check_results: new match of function `i` (string `f`) when it is un-merged: index after the old uniques of the
+first occurrence of its string among the un-merged strings -/
+def unmergeMatch (nuniq : Nat) (newFuns : List σ) (f : σ) : Nat := nuniq + firstIndex (uniqueKeys newFuns) f
 
 end ESR.Library
